@@ -228,6 +228,53 @@ func main() {
 			}
 		}
 		modPath = "github.com/nyaruka/goflow"
+		// callers of a dependency site = references FROM goflow's library code to the enclosing function, or, for a
+		// method, to its receiver type or any function of the dependency package that mentions the type in its name
+		// (constructors): a mock that only goflow's tests use has none
+		refs := map[string]int{} // "pkgpath.Name" -> references from non-test, non-skipped goflow packages
+		for _, p := range mine {
+			rel := strings.TrimPrefix(strings.TrimPrefix(p.PkgPath, modPath), "/")
+			skip := false
+			for _, sp := range skipPrefixes {
+				if rel == strings.TrimSuffix(sp, "/") || strings.HasPrefix(rel+"/", sp) || strings.HasPrefix(rel, sp) {
+					skip = true
+				}
+			}
+			if skip {
+				continue
+			}
+			for _, obj := range p.TypesInfo.Uses {
+				if obj.Pkg() != nil && strings.HasPrefix(obj.Pkg().Path(), depPath) {
+					refs[obj.Pkg().Path()+"."+obj.Name()]++
+				}
+			}
+		}
+		for i := range depSites {
+			pp := depPath + strings.TrimPrefix(depSites[i].Pkg, "gocommon")
+			fn := depSites[i].Func
+			n := 0
+			if k := strings.Index(fn, "."); k > 0 {
+				recv := fn[:k]
+				for name, c := range refs {
+					if strings.HasPrefix(name, pp+".") && strings.Contains(name[len(pp)+1:], recv) {
+						n += c
+					}
+				}
+			} else if fn == "init" || strings.HasPrefix(fn, "var") {
+				n = 1
+			} else {
+				n = refs[pp+"."+fn]
+				// unexported helper: reachable when anything of its package is used
+				if len(fn) > 0 && fn[0] >= 'a' && fn[0] <= 'z' {
+					for name, c := range refs {
+						if strings.HasPrefix(name, pp+".") {
+							n += c
+						}
+					}
+				}
+			}
+			depSites[i].Callers = n
+		}
 		sort.SliceStable(depSites, func(i, j int) bool {
 			if depSites[i].Pkg != depSites[j].Pkg {
 				return depSites[i].Pkg < depSites[j].Pkg
